@@ -123,6 +123,9 @@ macrodone(struct macro *m)
 		free(m->arg);
 	}
 	--macrodepth;
+#ifdef CPROC_VERIF
+	vtrace("{\"e\":\"pop\",\"macro\":\"%s\",\"depth\":%zu}", m->name, macrodepth);
+#endif
 }
 
 static bool
@@ -275,6 +278,10 @@ define(void)
 	if (*entry && !macroequal(m, *entry))
 		error(&tok.loc, "redefinition of macro '%s'", m->name);
 	*entry = m;
+#ifdef CPROC_VERIF
+	vtrace("{\"e\":\"def\",\"macro\":\"%s\",\"fn\":%d,\"nparam\":%zu,\"ntoken\":%zu,\"live\":%zu}",
+		m->name, m->kind == MACROFUNC, m->nparam, m->ntoken, macrodepth);
+#endif
 }
 
 static void
@@ -289,6 +296,9 @@ undef(void)
 	mapkey(&k, name, strlen(name));
 	entry = mapput(&macros, &k);
 	m = *entry;
+#ifdef CPROC_VERIF
+	vtrace("{\"e\":\"undef\",\"macro\":\"%s\",\"was\":%d,\"live\":%zu}", name, m != NULL, macrodepth);
+#endif
 	if (m) {
 		free(name);
 		free(m->param);
@@ -457,6 +467,10 @@ expand(struct token *t)
 			return false;
 		expandfunc(m);
 	}
+#ifdef CPROC_VERIF
+	vtrace("{\"e\":\"push\",\"macro\":\"%s\",\"fn\":%d,\"hidden\":%d,\"depth\":%zu}",
+		m->name, m->kind == MACROFUNC, m->hide, macrodepth + 1);
+#endif
 	ctxpush(m->token, m->ntoken, m, space);
 	m->hide = true;
 	++macrodepth;
@@ -526,6 +540,9 @@ expandfunc(struct macro *m)
 		t += arg[i].ntoken;
 	}
 	m->arg = arg;
+#ifdef CPROC_VERIF
+	vtrace("{\"e\":\"args\",\"macro\":\"%s\",\"n\":%zu,\"hidden\":%d,\"depth\":%zu}", m->name, m->nparam, m->hide, macrodepth);
+#endif
 }
 
 static void
